@@ -63,6 +63,30 @@ theorem uint_injective (v v' n m : Nat) (hv : v < 2 ^ 64) (hv' : v' < 2 ^ 64) (b
     (h : marshalUint v n = .ok bs) (h' : marshalUint v' m = .ok bs) : v = v' :=
   (uint_prefix_free v v' n m hv hv' bs bs [] [] h h' rfl).1
 
+theorem numGroups_mono (w : Nat) : ∀ v, v ≤ w → numGroups v ≤ numGroups w := by
+  induction w using Nat.strongRecOn with
+  | _ w ih =>
+    intro v hvw
+    by_cases hw : w > 127
+    · by_cases hv : v > 127
+      · rw [numGroups_step hw, numGroups_step hv]
+        have := ih (w / 128) (by omega) (v / 128) (Nat.div_le_div_right hvw)
+        omega
+      · rw [numGroups_small (by omega : v ≤ 127)]
+        exact numGroups_pos w
+    · rw [numGroups_small (by omega : v ≤ 127), numGroups_small (by omega : w ≤ 127)]
+      exact Nat.le_refl 1
+
+/-- C15.uint_size_monotone: the regenerated size function is monotone in the value and always
+between 1 and 10 bytes for 64-bit values (so a buffer sized for the largest value fits them all). -/
+theorem uint_size_monotone (v w : Nat) (hvw : v ≤ w) (hw : w < 2 ^ 64) :
+    Gen.Xbin.writableUintSize v ≤ Gen.Xbin.writableUintSize w ∧
+    1 ≤ Gen.Xbin.writableUintSize v ∧ Gen.Xbin.writableUintSize w ≤ 10 := by
+  have hv : v < 2 ^ 64 := by omega
+  rw [← numGroups_eq_wus v hv, ← numGroups_eq_wus w hw]
+  refine ⟨numGroups_mono w v hvw, numGroups_pos v, ?_⟩
+  exact numGroups_le_of_lt 9 w (by omega)
+
 theorem marshalUint_bytesWF (v n : Nat) (bs : Bytes) (h : marshalUint v n = .ok bs) : BytesWF bs :=
   by
   obtain ⟨rfl, _⟩ := marshalUint_ok h
